@@ -363,6 +363,71 @@ func genRelabelAfterFilters(r *rand.Rand) (string, []string) {
 	return q, class
 }
 
+// a label FILTER that compares a label with the empty string, over streams that lack the label: LogQL reads a missing label
+// as "" (`{sel} | env=""` = the streams WITHOUT env), and so does every read the planners emit for a filter (JSONExtractString
+// over the labels document in front of the parsers, labels['env'] behind them). The analogue of the absent-label MATCHER
+// finding, on the side where the code is right: an "index lookup" of the pair (env, "") in time_series_gin would find nothing
+// (seeded C07-d). The selector accepts no "" (absent_guard holds), the filtered label is mostly not one of the selector's.
+func genEmptyLabelFilter(r *rand.Rand) (string, []string) {
+	class := []string{"empty-label-filter", "labelfilter"}
+	sel := [][2]string{{"a", "b"}, {"job", "api"}, {"level", "error"}, {"status", "200"}, {"_x1", "it"}}
+	k := r.Intn(len(sel))
+	q := "{" + sel[k][0] + "=" + quoted(r, sel[k][1])
+	k2 := -1
+	if r.Intn(3) == 0 {
+		k2 = (k + 1 + r.Intn(len(sel)-1)) % len(sel)
+		q += "," + sel[k2][0] + []string{"=", "=~"}[r.Intn(2)] + quoted(r, sel[k2][1])
+	}
+	q += "}"
+	l := pick(r, labelNames)
+	for try := 0; try < 8 && (l == sel[k][0] || (k2 >= 0 && l == sel[k2][0])); try++ {
+		l = pick(r, labelNames)
+	}
+	empty := []string{`""`, "``"}[r.Intn(2)]
+	other := pick(r, labelNames)
+	for other == l {
+		other = pick(r, labelNames)
+	}
+	lf := func() string {
+		switch r.Intn(12) {
+		case 0:
+			return l + "!=" + empty
+		case 1:
+			return l + "=~" + quoted(r, pick(r, []string{"", "^$", ".*", ".+"}))
+		case 2:
+			return l + "!~" + quoted(r, pick(r, []string{".+", "^$", "x"}))
+		case 3:
+			return "(" + l + "=" + empty + ")"
+		case 4:
+			return l + "=" + empty + " or " + l + "=" + quoted(r, pick(r, []string{"b", "api", "x"}))
+		case 5:
+			return l + "=" + empty + " and " + other + "=" + empty
+		default:
+			return l + "=" + empty // the one shape an index lookup would be tempted by
+		}
+	}
+	if r.Intn(4) == 0 { // a line filter in front: the label filter is still pushed down to the series table
+		class = append(class, "linefilter")
+		q += " " + []string{"|=", "!="}[r.Intn(2)] + " " + quoted(r, pick(r, []string{"x", "it", "hello"}))
+	}
+	if r.Intn(6) == 0 { // behind a parser the filter reads labels['l']: absent = '' as well
+		q += " | json " + other + "=" + quoted(r, pick(r, jsonPaths))
+		class = append(class, "json")
+	}
+	q += " | " + lf()
+	switch r.Intn(6) {
+	case 0:
+		q += " | " + other + "=" + empty
+	case 1:
+		q += genFilter(r, &class)
+	case 2:
+		q += genDrop(r, &class)
+	case 3:
+		q += genJson(r, &class)
+	}
+	return q, class
+}
+
 func genParserQuery(r *rand.Rand) (string, []string) {
 	if r.Intn(4) == 0 {
 		return genRelabelAfterFilters(r)
@@ -1436,8 +1501,7 @@ func main() {
 	switch *mode {
 	case "gen":
 		r := hx.Rand(f.Seed)
-		for i := 0; i < f.N; i++ {
-			q, class := genQuery(r)
+		put := func(r *rand.Rand, i int, q string, class []string) {
 			from := int64(1700000000)*1e9 + int64(r.Intn(4*86400))*1e9
 			if r.Intn(6) == 0 { // windows next to midnight: the FormatFromDate margin
 				from = (int64(19700+r.Intn(30))*86400 + int64(r.Intn(3600))) * 1e9
@@ -1447,6 +1511,16 @@ func main() {
 				Limit: []int64{0, 0, 1, 2, 3, 100}[r.Intn(6)], Asc: r.Intn(2) == 0, Cluster: r.Intn(4) == 0,
 				Type: []uint8{0, 1, 1, 2}[r.Intn(4)], Finalize: r.Intn(6) != 0, StepMs: 1000,
 			}})
+		}
+		for i := 0; i < f.N; i++ {
+			q, class := genQuery(r)
+			put(r, i, q, class)
+		}
+		// one more class from a stream of its own (the cases above do not move): label filters against the empty string
+		r2 := hx.Rand(f.Seed*7919 + 17)
+		for i := 0; i < f.N/13+4; i++ {
+			q, class := genEmptyLabelFilter(r2)
+			put(r2, f.N+i, q, class)
 		}
 	case "regroups":
 		r := hx.Rand(f.Seed)
